@@ -402,6 +402,9 @@ class Engine:
         v = self.module_name(fr.mod, name)
         if v is not NotImplemented:
             return v
+        cctx = getattr(fr, 'class_ctx', None)
+        if cctx and fr.mod is not None and '%s.%s' % (cctx, name) in fr.mod.assigns:
+            return self.module_const(fr.mod, '%s.%s' % (cctx, name))
         if name in self.reg.spec_funcs:
             return UserFn(None, name, self.reg.spec_funcs[name])
         if name in self.builtins:
@@ -444,6 +447,8 @@ class Engine:
         node = mod.assigns[name]
         st = State()
         fr = Frame(mod, '<module>', None)
+        if '.' in name:
+            fr.class_ctx = name.split('.')[0]
         self.frames.append(fr)
         self.sinks.append([])
         self.pure += 1
@@ -1038,9 +1043,19 @@ class Engine:
         out = []
         rs = self.ev(node.value, st) if node.value is not None else [(st, None)]
         for s, v in rs:
-            s.out = v_append(s.out, v)
+            s.out = v_append(s.out, self.snapshot(v, s))
+            s.out.ekind = self.frame.contract.yields if self.frame.contract is not None and not getattr(self.frame, 'inlined', False) else s.out.ekind
             out.append((s, None))
         return out
+
+    def snapshot(self, v, st, depth=0):
+        """Value of a heap object at this moment (objects put into a sequence are stored by value)."""
+        if isinstance(v, Ref) and depth < 6:
+            o = st.heap[v.oid]
+            return Rec(o.cls, {f: self.snapshot(x, st, depth + 1) for f, x in o.fields.items()})
+        if isinstance(v, Tup):
+            return Tup([self.snapshot(x, st, depth + 1) for x in v.items])
+        return v
 
     def ev_YieldFrom(self, node, st):
         out = []
@@ -1408,8 +1423,7 @@ class Engine:
             res = fresh(c.returns, uid(c.func.split('.')[-1] + '_res'), (), facts)
             if isinstance(c.returns, KByte):
                 ops.set_bits(res, 8, 0)
-            if isinstance(c.returns, KRec):
-                res = st.new_obj(res.cls, res.fields)
+            res = self.objectify(res, st)
             extra['result'] = res
         else:
             res = None
@@ -1432,6 +1446,22 @@ class Engine:
             for g, v in newg.items():
                 st.env[g] = v
         return [(st, res)]
+
+    def kind_in_state(self, v, st):
+        if isinstance(v, Ref):
+            o = st.heap[v.oid]
+            return KRec(o.cls, **{f: self.kind_in_state(x, st) for f, x in o.fields.items()})
+        if isinstance(v, Tup):
+            return KTup(*[self.kind_in_state(x, st) for x in v.items])
+        return kind_of(v)
+
+    def objectify(self, v, st):
+        """Records inside a returned tuple become heap objects (a callee returning fresh objects)."""
+        if isinstance(v, Rec):
+            return self.rec_to_obj(v, st)
+        if isinstance(v, Tup):
+            return Tup([self.objectify(x, st) for x in v.items])
+        return v
 
     def havoc_modifies(self, c, env, st):
         for path in c.modifies:
@@ -1456,11 +1486,11 @@ class Engine:
         cur = o.fields.get(parts[-1])
         k = (kinds or {}).get(path)
         if k is None:
-            k = kind_of(cur)
+            k = self.kind_in_state(cur, st)
         facts = []
         nv = fresh(k, uid(parts[-1]), (), facts)
         if isinstance(k, KRec):
-            nv = st.new_obj(nv.cls, nv.fields)
+            nv = self.rec_to_obj(nv, st)
         o.fields[parts[-1]] = nv
         for f in facts:
             st.assume(f)
